@@ -109,7 +109,23 @@ def step_sig(site, op, r0, c0, bad_axis):
 
 
 def check_static(rec, ctx, np):
-    """Coordinate vectors, grids, frequency axes, slices and centroids for one shape."""
+    """Coordinate vectors, grids, frequency axes, slices and centroids for one shape.  A prysm call that raises
+    inside the specified domain is a disagreement, not a machinery failure."""
+    try:
+        return _check_static(rec, ctx, np)
+    except core.Machinery:
+        raise
+    except Exception as ex:
+        import traceback
+        tb = traceback.extract_tb(ex.__traceback__)
+        site = next((f.name for f in reversed(tb) if '/prysm/' in f.filename), 'harness')
+        if site == 'harness':
+            raise
+        return [('Grid:%s:raised:%s,%s' % (site, par(rec['r']), par(rec['c'])),
+                 'shape=%s raised %s: %s' % ((rec['r'], rec['c']), type(ex).__name__, ex))]
+
+
+def _check_static(rec, ctx, np):
     from prysm import fttools, coordinates, psf
     from prysm._richdata import RichData
     r, c = rec['r'], rec['c']
@@ -180,7 +196,7 @@ def run(ctx, replay=None, selftest=False):
         recs = [blob['record']]
         c0, _, d0 = cfg(2, 2, 0, ('constant0',), [(2, 1)], [(1, 1)])
         ctx.tlc('Grid', c0, defs=d0, name='replay-smoke', emit=False)
-        _replay(recs, ctx, np)
+        _replay(recs, ctx, np, lenient=True)
         return
     plans = PLANS[ctx.tier]
     emits = core.parallel([(lambda n=name, e=emit, d=defs: ctx.tlc('Grid', e, defs=d, name=n + ':emit', count=False, coverage=False))
@@ -195,7 +211,7 @@ def run(ctx, replay=None, selftest=False):
                         'Q menu is dyadic so that ceil(s*Q) is exact in binary floating point']
 
 
-def _replay(records, ctx, np, selftest=False):
+def _replay(records, ctx, np, selftest=False, lenient=False):
     """Every record is one state = one behaviour (its hist from shape hist0).  TLC emits breadth-first, so the
     record of every proper prefix precedes it; the replay compares after EVERY action and a disagreement is
     reported once, by the shortest behaviour that shows it (the one whose last action diverges)."""
@@ -221,6 +237,9 @@ def _replay(records, ctx, np, selftest=False):
             for k, op in enumerate(hist):
                 last = k == len(hist) - 1
                 e = want.get((r0, c0, json.dumps(hist[:k + 1], sort_keys=True)))
+                if e is None and lenient:
+                    a = np.asarray(apply_op(a, op, np, via=via))
+                    continue
                 if e is None:
                     raise core.Machinery('prefix of an emitted behaviour was not emitted: %s' % hist[:k + 1])
                 det = None
